@@ -1003,6 +1003,48 @@ def scenario_dellog(rng):
     return out
 
 
+def scenario_p2p_last(rng):
+    """the last participant of a p2p topic deletes it (C14, C08): the other has unsubscribed or deleted the account; the remaining one
+    is attached or not, the store fails at one of the calls of the deletion; then both come back"""
+    out = _preamble(rng)
+    out.extend(["sub S1 U2", "sub S2 U1"])
+    if rng.chance(1, 2):
+        out.append("pub S1 U2 L1")
+    out.append(rng.choice(["leave S2 U1 unsub=1", "leave S2 U1 unsub=1", "deltopic S2 U1", "delsub S1 U2 U2"]))
+    if rng.chance(1, 3):
+        out.append("leave S1 U2")
+    if rng.chance(1, 4):
+        out.append("unload P:U1:U2")
+    if rng.chance(3, 4):
+        out.append(f"fail {1 + rng.below(3)}")
+    out.append("deltopic S1 U2" + rng.choice(["", " hard=1"]))
+    for _ in range(2 + rng.below(4)):
+        out.append(rng.choice(["leave S1 U2", "sub S1 U2", "drop S1", "sub S2 U1", "get S1 U2 desc", "pub S1 U2 L2", "deltopic S1 U2", "unload P:U1:U2",
+                               "sub S4 U2", "leave S4 U2"]))
+    return out
+
+
+def scenario_p2p_reinvite(rng):
+    """a participant of a p2p topic leaves for good and is invited back by the other (C02, C07, C10): messages are published before the
+    invited one attaches again - the push and the notices on `me` are what reaches somebody who is not there -, then both are back"""
+    out = _preamble(rng)
+    if rng.chance(1, 2):
+        out.append("sub S2 me")
+    out.extend(["sub S1 U2", "sub S2 U1", "pub S2 U1 R1"])
+    out.append(rng.choice(["leave S2 U1 unsub=1", "deltopic S2 U1", "delsub S1 U2 U2"]))
+    if rng.chance(1, 3):
+        out.append("pub S1 U2 R2")
+    out.append("setsub S1 U2 user=U2" + rng.choice(["", " mode=JRWPA", " mode=JRWA", " mode=JRPA"]))
+    for _ in range(1 + rng.below(3)):
+        out.append(rng.choice(["pub S1 U2 R3", "pub S1 U2 R4 noecho=1", "get S1 U2 sub", "note S1 U2 read 1", "pub S4 U2 R5"]))
+    if rng.chance(1, 3):
+        out.append(rng.choice(["restart", "unload P:U1:U2"]))
+        out.append("sub S1 U2")
+    out.append("pub S1 U2 R6")
+    out.extend(["sub S2 U1", "pub S1 U2 R7", "get S2 U1 data"])
+    return out
+
+
 def gen_world(rng, tier):
     ncases = 600 if tier == "thorough" else 420
     for i in range(ncases):
@@ -1018,6 +1060,14 @@ def gen_world(rng, tier):
         if i % 6 == 1:
             # crossings are extra too (a generator of their own)
             for l in scenario_cross(rng.fork(f"cross-scenario-{i}")):
+                yield l
+        if i % 12 == 10:
+            # invited back into a p2p topic (a generator of their own)
+            for l in scenario_p2p_reinvite(rng.fork(f"p2pre-scenario-{i}")):
+                yield l
+        if i % 12 == 9:
+            # the last participant deletes a p2p topic, with store failures (a generator of their own)
+            for l in scenario_p2p_last(rng.fork(f"p2plast-scenario-{i}")):
                 yield l
         if i % 6 == 3:
             # who is told what was deleted (a generator of their own)
